@@ -19,7 +19,18 @@ PID = 'C13'
 def universes(tier):
     if tier == 'quick':
         return ['a', 'b'], ['x', 'y'], ['n'], ['q']
+    if tier == 'quick3':     # a few three-name states in the quick tier (order effects need >= 3 names)
+        return ['a', 'b', 'c'], ['x', 'y', 'z'], ['n'], ['q']
     return ['a', 'b', 'c'], ['x', 'y', 'z'], ['n', 'm'], ['q', 'r']
+
+
+def quick3_states():
+    """(object state index, property state indexes) over the 3x3 universe used by the quick tier"""
+    UO, UP, _, _ = universes('quick3')
+    os_, ps_ = defs.ordered_subsets(UO), defs.ordered_subsets(UP)
+    want_o = [['a', 'b', 'c'], ['c', 'a', 'b']]
+    want_p = [['x', 'y', 'z'], ['z', 'x', 'y'], ['y', 'x']]
+    return [os_.index(o) for o in want_o], [ps_.index(p) for p in want_p]
 
 
 def units(tier, seed):
@@ -38,6 +49,13 @@ def units(tier, seed):
                     us.append({'name': f'{g} objects={ostates[oi]}', 'fn': 'unit_ops',
                                'args': {'tier': tier, 'oi': oi, 'pis': list(range(chunk, min(chunk + 4, len(pstates)))),
                                         'group': g, 'n': 1, 'm': 1}})
+    if tier == 'quick':
+        ois, pis = quick3_states()
+        o3 = defs.ordered_subsets(universes('quick3')[0])
+        for oi in ois:
+            for g in groups:
+                us.append({'name': f'{g} objects={o3[oi]} (3x3 universe)', 'fn': 'unit_ops',
+                           'args': {'tier': 'quick3', 'oi': oi, 'pis': pis, 'group': g, 'n': 2, 'm': 1}})
     return us
 
 
@@ -84,6 +102,9 @@ def instances(group, O, P, UO, UP, FO, FP, tier):
         others_p = [list(x) for x in defs.ordered_subsets(UP + FP[:1]) if len(x) <= 2]
         others_o = others_o[::2] + [list(reversed(UO))]
         others_p = others_p[1::2] + [list(reversed(UP))]
+        if tier == 'quick3':
+            others_o = [list(reversed(UO)), [UO[2], UO[0]], [UO[1], FO[0], UO[0]], []]
+            others_p = [list(reversed(UP)), [UP[2], UP[0]], [UP[1]]]
         for O2 in others_o:
             for P2 in others_p:
                 for name in ('union_update', 'intersection_update'):
